@@ -371,6 +371,12 @@ func (cl *Client) RoundTrip(_ *fasthttp.HostClient, req *fasthttp.Request, res *
 			return false, err
 		}
 
+		// A request the server disclaimed did go out, body and all. A body
+		// that was streamed from a reader cannot be produced a second time.
+		if errors.Is(err, ErrNotProcessed) && req.IsBodyStream() {
+			return false, err
+		}
+
 		// Nothing went out, so this can go on another connection whatever the
 		// method is. Picking again skips the connection that just turned it
 		// away: it either has no streams left or has closed, and pickConn
@@ -427,5 +433,6 @@ func retryable(err error) bool {
 
 	return errors.Is(err, ErrConnectionClosed) ||
 		errors.Is(err, ErrNotAvailableStreams) ||
-		errors.Is(err, ErrNoMoreStreamIDs)
+		errors.Is(err, ErrNoMoreStreamIDs) ||
+		errors.Is(err, ErrNotProcessed)
 }
